@@ -389,7 +389,7 @@ func (sc *c17rScenario) serve(p *c17Peer, req *c17rDial) {
 	case c17rSrvSplit:
 		k := 1 + sc.rng.Intn(len(sh3)-1)
 		write([]byte(sh3[:k]))
-		time.Sleep(30 * time.Millisecond)
+		c17WaitUntil(3*time.Second, func() bool { _, cl := sp.state(); return cl }) // the relay reads once: it must give up on the first part
 		write([]byte(sh3[k:]))
 	case c17rSrvEchoClientHello:
 		write([]byte(ch2))
@@ -677,10 +677,15 @@ func c17rSequential(c *ctx, seed int64, forced [][2]int, forcedEnd int, prog *c1
 		}
 	}
 	sc.refreshAdopted()
-	// payload: while the relay is handshaking what the adopted client sends is parked, not forwarded
-	if a := sc.adopted; a >= 0 {
+	endgame := rng.Intn(4)
+	if forcedEnd >= 0 {
+		endgame = forcedEnd
+	}
+	// payload: while the relay is handshaking what the adopted client sends is parked, not forwarded (only in
+	// scenarios without a reset: whether the pump has read it before the reset would be a matter of timing)
+	if a := sc.adopted; a >= 0 && endgame == 0 {
 		sc.writeClient(sc.peers[a], []byte(fmt.Sprintf("<C%d>parked", a))) // no newline: a complete line would be read by the relay's own handshake goroutine
-		time.Sleep(10 * time.Millisecond)
+		c.count("parked-payload")
 	}
 	for _, p := range sc.peers { // intruders and losers keep talking
 		if p.idx != sc.adopted && !p.refused && !p.selfEnd && rng.Intn(2) == 0 {
@@ -688,10 +693,6 @@ func c17rSequential(c *ctx, seed int64, forced [][2]int, forcedEnd int, prog *c1
 				sc.writeClient(p, []byte(fmt.Sprintf("<C%d>junk", p.idx)))
 			}
 		}
-	}
-	endgame := rng.Intn(4)
-	if forcedEnd >= 0 {
-		endgame = forcedEnd
 	}
 	if endgame >= 1 {
 		first := sc.adopted
